@@ -35,8 +35,13 @@ SPEC = {
              "partitions of a split, x a populate loop nest LEFT EARLY (break out of the row loop at the 1st / 2nd row "
              "before or after the row was filled, break out of the leaf loop, an exception out of the whole nest), under "
              "formats CU/UC/UU; half of the random populate cases of (iii) also leave every loop with probability "
-             "0.05-0.25 per iteration before / after the body's work (break, exception, or both).  The oracle always walks the raw tree as it is when the "
-             "Format is built and uses the declared shape.  Per case: "
+             "0.05-0.25 per iteration before / after the body's work (break, exception, or both); (vi) every grid tree "
+             "handed over WITHOUT a declared shape (fromFiber / Tensor() + setRoot without a shape argument) under "
+             "formats CU/UC/UU, and x each single history operation under CU/UU; 25% of the random finished trees of (iii) "
+             "(fromFiber or Tensor() + setRoot), of the uncompressed nests and 30% of the empty tensors carry no declared "
+             "shape either, with C/U drawn freely per rank.  The oracle always walks the raw tree as it is when the "
+             "Format is built and uses the declared shape or, when none was declared, the shape the raw tree itself "
+             "defines per rank (largest coordinate stored in any fiber of the rank + 1; the list lengths of a nest).  Per case: "
              "getRoot, getTensor, getRank of every rank (before and after the other queries), getFiber and getSubTree at "
              "every stored proper prefix and at absent prefixes, all spec getters.  Non-trivial = the tree stores at "
              "least one element and at least one rank contributes a positive number of bits; distinct = distinct case."),
@@ -49,7 +54,9 @@ SPEC = {
                              "active_set": 3000, "fibers_with_narrowed_active_range": 3000,
                              "u_children_outside_active": 2000, "populate_cases": 300, "partition_cases": 200,
                              "populate_left_early_cases": 800, "populate_loops_left_at_new_empty_subfiber": 250,
-                             "populate_loops_left_after_element_filled": 300},
+                             "populate_loops_left_after_element_filled": 300,
+                             "undeclared_shape_cases": 4000, "undeclared_shape_history_cases": 2500,
+                             "undeclared_u_fibers_shorter_than_rank": 1000},
                    "thorough": {"evaluations": 60000, "oracle_evals": 1000000, "contract_evals": 1000000,
                                 "getFiber_checked": 100000, "getSubTree_checked": 100000, "dirty_cases": 10000,
                                 "u_absent_children": 40000, "omitted_fields": 100000,
@@ -58,12 +65,21 @@ SPEC = {
                                 "fibers_with_narrowed_active_range": 40000, "u_children_outside_active": 30000,
                                 "populate_cases": 6000, "partition_cases": 4000, "populate_left_early_cases": 4000,
                                 "populate_loops_left_at_new_empty_subfiber": 1200,
-                                "populate_loops_left_after_element_filled": 1500}},
+                                "populate_loops_left_after_element_filled": 1500,
+                                "undeclared_shape_cases": 40000, "undeclared_shape_history_cases": 15000,
+                                "undeclared_u_fibers_shorter_than_rank": 10000}},
     "assumptions": [
         "occupancy of a compressed fiber = number of stored elements (len of its raw coordinate list), explicit "
         "defaults and stored empty sub-fibers included",
-        "a rank is given format U in the specification only when the tensor carries an authoritative shape "
-        "(shape passed at construction, every stored coordinate below it); with estimated shapes only C is used",
+        "'shape' of a fiber = the shape of its rank, one number for every fiber of the rank (stored, or absent and "
+        "counted as empty): the shape declared at construction (every stored coordinate below it) or, for a tensor "
+        "built without a declared shape from a finished tree (fromFiber / Tensor() + setRoot without shape), one more "
+        "than the largest coordinate stored in any fiber of that rank (explicit defaults and empty sub-fibers are "
+        "stored elements; 0 when no fiber of the rank stores a coordinate) - which is also what Tensor.getShape() "
+        "documents for such a tensor; for fromUncompressed without shape the list lengths of the nest.  A tensor "
+        "without a declared shape is not modified between construction and the Format (its estimate cannot be stale); "
+        "an output declared without shape and grown by a populate is generated only behind _POPULATE_UNDECLARED "
+        "(keys ...:undeclared-populated), see the note there",
         "getSubTree / getFiber with a full-depth point (a leaf, not a fiber) are outside the statement and not called",
         "getFiber / getSubTree at an absent coordinate are judged (as an empty fiber) only when every rank in which the "
         "path leaves the stored tree is uncompressed in the specification; below a compressed rank only the "
@@ -218,9 +234,30 @@ def generate(rng, tier, shard, nshards, mon):
                     yield case
                 idx += 1
     mon.exhaustive["depth2-grid-2x2-x-active-ranges"] = True
+    # (vi) no declared shape: every grid tree handed over as a finished tree (fromFiber / Tensor() + setRoot, no
+    # shape argument) under formats CU/UC/UU, and x every single history operation under CU/UU
+    for tree in _grid_trees():
+        for fmts in ("CU", "UC", "UU"):
+            variants = [{"build": "spec"}, {"build": "setroot"}]
+            if fmts != "UC":
+                variants += [{"build": "spec", "history": [op]} for op in _GRID_HISTORY]
+            for v in variants:
+                if idx % nshards == shard:
+                    case = {"kind": "fmt", "tree": tree, "rank_ids": ["M", "K"], "shape": None, "default": 0,
+                            "tfmts": None, "spec": _full_spec(["M", "K"], fmts, PRIMES_A), "sys": "grid2-undeclared"}
+                    case.update(v)
+                    yield case
+                idx += 1
+    mon.exhaustive["depth2-grid-2x2-x-undeclared-shape"] = True
     nrand = (20000 if tier == "quick" else 400000) // nshards
     for _ in range(nrand):
         yield _random_case(rng, tier)
+
+
+# An output declared WITHOUT a shape and grown by a populate loop nest never gets a rank shape recorded; until repository
+# fix ddd6f8b every fiber of an uncompressed rank then answered with its own largest coordinate + 1 instead of the rank's
+# (keys ...:undeclared-populated).
+_POPULATE_UNDECLARED = True
 
 
 # single operations of the systematic history block (depth-2 tensor over a 2x2 grid)
@@ -293,7 +330,6 @@ def _random_case(rng, tier):
     default = rng.choice([0, 0, 0, 7])
     r = rng.random()
     case = {"kind": "fmt", "rank_ids": rank_ids, "default": default}
-    authoritative = True
     r2 = rng.random()
     if r2 < 0.10:
         # an output declared with `shape`, possibly pre-filled, populated (<<) from a smaller operand
@@ -302,6 +338,9 @@ def _random_case(rng, tier):
         case.update(build="populate", shape=zshape, ashape=list(extents),
                     tree=gen.rand_tree_spec(rng, extents, rng.choice([0.3, 0.6, 0.9]), dirty, default),
                     ztree=gen.rand_tree_spec(rng, zshape, 0.3, dirty, default) if rng.random() < 0.4 else [])
+        if _POPULATE_UNDECLARED and rng.random() < 0.25:
+            # the output is declared without a shape (and starts empty): its shape is what the loop nest stored
+            case.update(shape=None, ztree=[])
         if rng.random() < 0.5:
             # the loop nest is left early: every iteration of every loop may leave before / after its work
             case["leave"] = {"p": rng.choice([0.1, 0.25, 0.5]), "seed": rng.randrange(1 << 30),
@@ -315,16 +354,17 @@ def _random_case(rng, tier):
                     tree=gen.rand_tree_spec(rng, extents, rng.choice([0.6, 0.9]), rng.choice([0.0, 0.3]), default),
                     split=[how, arg], part=rng.randrange(4))
     elif r < 0.06:
-        case.update(build="empty", tree=[], shape=[e + rng.randint(0, 2) for e in extents])
+        case.update(build="empty", tree=[], shape=[e + rng.randint(0, 2) for e in extents] if rng.random() < 0.7 else None)
     elif r < 0.18:
         nest = gen.rand_nest(rng, extents, rng.choice([0.2, 0.5, 0.9]), default)
-        case.update(build="nest", nest=nest, tree=None, shape=list(extents))
+        case.update(build="nest", nest=nest, tree=None, shape=list(extents) if rng.random() < 0.75 else None)
     else:
         dirty = rng.choice([0.0, 0.3, 0.3, 0.7])
         tree = gen.rand_tree_spec(rng, extents, rng.choice([0.3, 0.6, 0.9]), dirty, default)
-        authoritative = rng.random() < 0.85
-        case.update(build="spec", tree=tree,
-                    shape=[e + rng.choice([0, 0, 1, 2]) for e in extents] if authoritative else None)
+        # 25% without a declared shape: the finished tree alone says what the shape of each rank is
+        declared = rng.random() < 0.75
+        case.update(build=rng.choice(["spec", "spec", "setroot"]), tree=tree,
+                    shape=[e + rng.choice([0, 0, 1, 2]) for e in extents] if declared else None)
     case["tfmts"] = [rng.choice("CU") for _ in rank_ids] if rng.random() < 0.25 else None
     if rng.random() < 0.3:
         case["active"] = {"p": rng.choice([0.3, 0.7, 1.0]), "seed": rng.randrange(1 << 30)}
@@ -357,7 +397,7 @@ def _random_case(rng, tier):
             if rng.random() >= p_omit:
                 e[fld] = width()
         if rng.random() >= p_omit:
-            e["format"] = rng.choice("CU") if authoritative else "C"
+            e["format"] = rng.choice("CU")
         if rng.random() >= p_omit:
             e["layout"] = rng.choice(["contiguous", "interleaved"])
         spec[rid] = e
@@ -379,6 +419,29 @@ def fill_spec(raw, rank_ids):
     return out
 
 
+def rank_shapes(case, root):
+    """(shape of every rank, where it comes from), from the case and the raw tree only.
+
+    declared: the shape given at construction.  Otherwise the tensor was built without one and the tree itself says
+    what the shape of a rank is: one more than the largest coordinate stored in ANY fiber of that rank (0 when no fiber
+    of the rank stores a coordinate) - the same number for every fiber of the rank, stored or absent; an uncompressed
+    nest given to fromUncompressed has the dimensions of its lists."""
+    if case["shape"] is not None:
+        return list(case["shape"]), "declared"
+    if case["build"] == "nest":
+        return gen.nest_shape(case["nest"]), "undeclared"
+    shape = [0] * len(case["rank_ids"])
+
+    def walk(f, d):
+        if f.coords:
+            shape[d] = max(shape[d], max(f.coords) + 1)
+        for p in f.payloads:
+            if isinstance(p, Fiber):
+                walk(p, d + 1)
+    walk(root, 0)
+    return shape, "undeclared-populated" if case["build"] == "populate" else "undeclared"
+
+
 class Model:
     def __init__(self, tensor, raw_spec, rank_ids, shape, default):
         self.rank_ids = list(rank_ids)
@@ -390,6 +453,15 @@ class Model:
         self.ranks = list(tensor.ranks)
         self.u_absent = 0
         self.u_outside_active = 0
+        self.u_tag = "U"
+
+    def tag(self, d):
+        """Format letter of rank d for violation keys (an undeclared shape is named behind the U it enters)."""
+        return self.u_tag if self.spec[self.rank_ids[d]]["format"] == "U" else "C"
+
+    def src(self, d0=0):
+        """Key suffix for sums over ranks d0.. : where the shape comes from, if it enters and was not declared."""
+        return self.u_tag[1:] if any(self.spec[r]["format"] == "U" for r in self.rank_ids[d0:]) else ""
 
     def fiber_bits(self, d, fiber):
         e = self.spec[self.rank_ids[d]]
@@ -470,7 +542,7 @@ def _post_fiber_footprint(self, rank, fiber, result):
         return True
     want = model.fiber_bits(d, fiber)
     fmt = model.spec[model.rank_ids[d]]["format"]
-    mon.check(result == want, f"contract:_getFiberFootprint:{fmt}",
+    mon.check(result == want, f"contract:_getFiberFootprint:{model.tag(d)}",
               f"_getFiberFootprint({rank!r}, fiber at depth {d} with {len(fiber.coords)} stored elements, format {fmt}) "
               f"returned {result!r}, header + (cbits+pbits) x {'occupancy' if fmt == 'C' else 'shape'} = {want}")
     return True
@@ -686,6 +758,8 @@ def _build(case):
         a = gen.tensor_from_spec(case["tree"], rids, shape=case["ashape"], default=d)
         if case["ztree"]:
             t = gen.tensor_from_spec(case["ztree"], rids, shape=case["shape"], default=d)
+        elif case["shape"] is None:
+            t = Tensor(rank_ids=list(rids), default=d)
         else:
             t = Tensor(rank_ids=list(rids), shape=list(case["shape"]), default=d)
         leaver = _Leaver(case.get("leave"))
@@ -699,11 +773,14 @@ def _build(case):
         parts = [p for p in getattr(f, case["split"][0])(case["split"][1]).getPayloads() if isinstance(p, Fiber)]
         part = parts[case["part"] % len(parts)] if parts else f
         t = Tensor.fromFiber(rank_ids=list(rids), fiber=part, shape=list(case["shape"]), default=d)
-    elif case["build"] == "empty":
-        t = Tensor(rank_ids=list(rids), shape=list(case["shape"]), default=d)
+    elif case["build"] in ("empty", "setroot"):
+        t = Tensor(rank_ids=list(rids), default=d) if case["shape"] is None else \
+            Tensor(rank_ids=list(rids), shape=list(case["shape"]), default=d)
+        if case["build"] == "setroot":
+            t.setRoot(gen.fiber_from_spec(case["tree"], default=d))
     elif case["build"] == "nest":
-        t = Tensor.fromUncompressed(rank_ids=list(rids), root=copy.deepcopy(case["nest"]), shape=list(case["shape"]),
-                                    default=d)
+        kw = {} if case["shape"] is None else {"shape": list(case["shape"])}
+        t = Tensor.fromUncompressed(rank_ids=list(rids), root=copy.deepcopy(case["nest"]), default=d, **kw)
     else:
         t = gen.tensor_from_spec(case["tree"], rids, shape=case["shape"], default=d)
     if case.get("tfmts"):
@@ -750,7 +827,10 @@ def run_case(case, mon):
     if case.get("history"):
         mon.count("history_cases")
     # the oracle is built from the raw tree as it is now and from the declared shape
-    model = Model(t, raw_spec, rids, case["shape"], case["default"])
+    shape, shape_src = rank_shapes(case, t.__dict__.get("_root"))
+    model = Model(t, raw_spec, rids, shape, case["default"])
+    # keys of the shape-dependent clauses name where the shape comes from when it was not declared
+    model.u_tag = "U" if shape_src == "declared" else "U:" + shape_src
     by_depth = model.fibers_by_depth()
     stored = sum(len(f.coords) for fs in by_depth for f in fs)
     dirty = any(len(f.coords) == 0 for fs in by_depth[1:] for f in fs) or \
@@ -767,7 +847,15 @@ def run_case(case, mon):
     # coverage of the two situations the widened domain is about (counters only, nothing is judged here):
     # fibers whose active range is not (0, declared shape), and - after a history - stored sub-fibers without
     # content in a rank the specification makes uncompressed
-    if model.shape is not None:
+    if shape_src != "declared":
+        mon.count("undeclared_shape_cases")
+        if case.get("history"):
+            mon.count("undeclared_shape_history_cases")
+        # stored fibers of a rank the specification makes uncompressed that end below the shape of their rank
+        mon.count("undeclared_u_fibers_shorter_than_rank",
+                  sum(1 for d, fs in enumerate(by_depth) if model.spec[rids[d]]["format"] == "U"
+                      for f in fs if (max(f.coords) + 1 if f.coords else 0) < shape[d]))
+    else:
         mon.count("fibers_with_narrowed_active_range",
                   sum(1 for d, fs in enumerate(by_depth) for f in fs if tuple(f.getActive()) != (0, model.shape[d])))
     if case.get("history"):
@@ -835,13 +923,13 @@ def _run_queries(case, mon, t, model, by_depth, stored):
             if ok:
                 mon.count("getRank_checked")
                 f_ = want[r]["format"]
-                mon.check(_is_int(got) and got == rank_want[d], f"getRank:sum:{f_}{phase}",
+                mon.check(_is_int(got) and got == rank_want[d], f"getRank:sum:{model.tag(d)}{phase}",
                           f"getRank({r!r}) = {got!r}, expected rhbits + sum over the {len(by_depth[d])} fibers of the "
                           f"rank = {rank_want[d]} (format {f_}, depth {d})")
         ok, got = _call(mon, "getTensor", fmt.getTensor)
         if ok:
             mon.count("getTensor_checked")
-            mon.check(_is_int(got) and got == tensor_want, f"getTensor:sum{phase}",
+            mon.check(_is_int(got) and got == tensor_want, f"getTensor:sum{model.src()}{phase}",
                       f"getTensor() = {got!r}, expected root {model.root_bits()} + ranks {rank_want} = {tensor_want}")
     ranks_and_tensor("")
 
@@ -855,7 +943,7 @@ def _run_queries(case, mon, t, model, by_depth, stored):
         for c, p in zip(f.coords, f.payloads):
             if isinstance(p, Fiber):
                 collect(p, d + 1, prefix + (c,))
-        if model.shape is not None:
+        if True:
             absent = [c for c in range(model.shape[d]) if c not in set(f.coords)]
             parent_u = want[rids[d]]["format"] == "U"
             for c in sorted(set(absent[:1] + absent[-1:])):
@@ -866,7 +954,7 @@ def _run_queries(case, mon, t, model, by_depth, stored):
     collect(model.root, 0, ())
     sub_root = None
     for prefix, d, f, judged, absent in queries:
-        tag = want[rids[d]]["format"] + (":absent" if absent else "")
+        tag = model.tag(d) + (":absent" if absent else "")
         if absent:
             mon.count("absent_prefix_queries")
         ok, got = _call(mon, "getFiber", fmt.getFiber, *prefix)
@@ -885,7 +973,7 @@ def _run_queries(case, mon, t, model, by_depth, stored):
             mon.count("u_children_outside_active", model.u_outside_active - before_o)
             mon.count("getSubTree_checked")
             below = "".join(want[r]["format"] for r in rids[d:])
-            mon.check(_is_int(got) and got == exp, f"getSubTree:{below}" + (":absent" if absent else ""),
+            mon.check(_is_int(got) and got == exp, f"getSubTree:{below}{model.src(d)}" + (":absent" if absent else ""),
                       f"getSubTree{prefix} = {got!r}, expected {exp} = sum over the fibers reachable below the point "
                       f"(formats from there down: {below})")
             if prefix == ():
